@@ -4,7 +4,7 @@
    `erase` forgets the `external` flag of hyperlinks (which the code loses: finding F10, see the
    `_refuted` statements) and reads the deprecated tag name "emph" as "em". *)
 From Pybtex Require Import Base.Prelude Base.PyChar Base.PyStr Model.RtTypes Model.RichText
-  Spec.Flat Spec.FlatOps Proofs.RichText.
+  Spec.Flat Spec.FlatOps Proofs.RichText Proofs.RichSlice.
 
 (* len(text) is the number of (character, markup) pairs of the rendering *)
 Theorem len_flat : forall t, rlen t = length (flat t).
@@ -59,6 +59,30 @@ Theorem join_flat_partial : forall sep ps, exists v, rjoin sep ps = Ok v /\
 Proof. exact join_flat_e. Qed.
 Print Assumptions join_flat_partial.
 
+(* text[i:j] for all optional bounds, negative, reversed, beyond the ends: exactly the Python
+   slice of the pair sequence (the stop-before-start case was defect F8, now fixed) *)
+Theorem slice_flat_partial : forall t i j, exists v, getitem_c t (KSlice i j) = Ok v /\
+  erase (flat v) = pyslice (erase (flat t)) i j.
+Proof. exact slice_flat_e. Qed.
+Print Assumptions slice_flat_partial.
+
+(* text[i] inside the bounds is the one pair s[i] ... *)
+Theorem index_flat_partial : forall t i p, pyindex (erase (flat t)) i = Some p ->
+  exists v, getitem_c t (KInt i) = Ok v /\ erase (flat v) = [p].
+Proof. exact index_flat_e. Qed.
+Print Assumptions index_flat_partial.
+
+(* ... outside the bounds String and Symbol raise (IndexError) like str ... *)
+Theorem index_leaf_out_of_range : forall t i, is_multipart t = false -> pyindex (flat t) i = None ->
+  getitem_c t (KInt i) = Crash.
+Proof. exact index_leaf_crash. Qed.
+Print Assumptions index_leaf_out_of_range.
+
+(* ... but Text/Tag/HRef/Protected return a text instead of raising (F23) *)
+Theorem index_out_of_range_raises_refuted : exists t i, pyindex (flat t) i = None /\ getitem_c t (KInt i) <> Crash.
+Proof. exact index_out_of_range_refuted. Qed.
+Print Assumptions index_out_of_range_raises_refuted.
+
 (* non-vacuity / sanity: concrete values *)
 Example ctor_example :
   mkc KText [RStr (s2l "Multi"); RTag (s2l "em") [RStr (s2l "part")]; RText [RTag (s2l "em") [RStr (s2l " "); RStr (s2l "text!")]]]
@@ -71,3 +95,14 @@ Proof. vm_compute. reflexivity. Qed.
 Example append_example :
   append (RTag (s2l "em") [RStr (s2l "x")]) (RStr (s2l "!")) = Ok (RTag (s2l "em") [RStr (s2l "x!")]).
 Proof. vm_compute. reflexivity. Qed.
+Example slice_example :
+  getitem_c (RText [RStr (s2l "Longcat is "); RTag (s2l "em") [RStr (s2l "looooooong!")]]) (KSlice None (Some 15%Z))
+  = Ok (RText [RStr (s2l "Longcat is "); RTag (s2l "em") [RStr (s2l "looo")]]).
+Proof. vm_compute. reflexivity. Qed.
+Example slice_reversed_example :
+  getitem_c (RText [RStr (s2l "abcdefgh")]) (KSlice (Some 3%Z) (Some 1%Z)) = Ok (RText []).
+Proof. vm_compute. reflexivity. Qed.
+Example index_example :
+  pyindex (erase (flat (RText [RStr (s2l "ab"); RTag (s2l "em") [RStr (s2l "c")]]))) (-1) = Some (ACh 99%N, [MTag (s2l "em")])
+  /\ getitem_c (RText [RStr (s2l "ab"); RTag (s2l "em") [RStr (s2l "c")]]) (KInt (-1)) = Ok (RText [RTag (s2l "em") [RStr (s2l "c")]]).
+Proof. vm_compute. split; reflexivity. Qed.
